@@ -23,7 +23,7 @@ RULE = ("Hypothesis draws a base b in [1800,2200] (month ends, leap days, midnig
 ASSUMPTIONS = ["process TZ=UTC", "when month-like and day-like units are mixed and clamping makes the two application orders differ, both are accepted",
                "implicit-now cases where the zone's UTC offset differs between 'now' and the result are skipped (counted)",
                "decimal counts are limited to 3 places (float rounding below 1 microsecond is not part of the claim)"]
-ESSENTIAL = ["base:month-end", "base:leap-day", "base:midnight", "units:3", "clock-time", "out-of-range", "fixed-word",
+ESSENTIAL = ["base:month-end", "base:leap-day", "base:midnight", "units:3", "clock-time", "out-of-range", "result-at-range-end", "fixed-word",
              "decimal", "implicit-now:tz-pair"]
 
 UNITS = ["second", "minute", "hour", "day", "week", "month", "year", "decade"]
@@ -166,6 +166,8 @@ def check_case(case):
         cls.append("decimal")
     if want == {None}:
         cls.append("out-of-range")
+    elif any(w is not None and (w.year >= 9997 or w.year <= 3) for w in want):
+        cls.append("result-at-range-end")
     monthlike = any(u in ("month", "year", "decade") for u in units)
     nmax = max(int(Fraction(n.replace(",", "."))) for _, n in terms)
     ncls = "0" if nmax == 0 else "1" if nmax == 1 else "<12" if nmax < 12 else "<=60" if nmax <= 60 else "big"
@@ -253,6 +255,17 @@ def cases(draw):
             terms.append([u, s])
         sign = draw(st.sampled_from([1, -1]))
         joiner = draw(st.sampled_from([" ", ", ", " and ", " "]))
+        if draw(st.integers(0, 11)) == 0:
+            # aimed at the ends of the representable range: the year part carries the base exactly into one of the years
+            # 9997..10001 (future) or -1..3 (past); only decades (+ years) reach that far from bases in 1800-2200
+            target = draw(st.sampled_from([9997, 9998, 9999, 9999, 10000, 10001])) if sign == 1 else draw(st.sampled_from([-1, 0, 1, 1, 2, 3]))
+            q, r = divmod(abs(target - base[0]), 10)
+            terms = [["decade", str(q)]]
+            if r or draw(st.booleans()):
+                terms.append(["year", str(r)])
+            if draw(st.integers(0, 3)) == 0:
+                terms.append([draw(st.sampled_from(["month", "day", "hour"])), str(draw(st.sampled_from([0, 1, 11, 12])))])
+            terms = list(draw(st.permutations(terms)))
     clk = None
     style = 0
     if draw(st.integers(0, 2)) == 0:
